@@ -168,10 +168,12 @@ def run(shard, ctx):
                     s = build(ctx, cls, tonic, octv)
                     if s is not None:
                         objs.append(((cls, tonic, octv), s, s.ascending(), s.descending()))
-        for k in ("C", "a", "Eb"):
-            s = build(ctx, "Chromatic", k, 1)
-            if s is not None:
-                objs.append((("Chromatic", k, 1), s, s.ascending(), s.descending()))
+        # chromatic scales are spelled after their key: the major and the minor key of one tonic share the scale's name
+        for k in ("C", "a", "Eb", "c", "A", "eb", "F", "f", "Ab", "ab"):
+            for octv in (1, 2):
+                s = build(ctx, "Chromatic", k, octv)
+                if s is not None:
+                    objs.append((("Chromatic", k, octv), s, s.ascending(), s.descending()))
         for (da, a, aa, ad) in objs:
             for (db, b, ba, bd) in objs:
                 exp = aa == ba and ad == bd
